@@ -586,11 +586,7 @@ func c01Gen(r *Rng, i int) *Sx {
 			}
 			add(L(A("api_publish"), sxMsg(m)))
 			deliver(nil, topic, qos)
-			if r.Chance(1, 4) {
-				// the caller publishes the same message object once more
-				add(L(A("api_publish"), sxMsg(m)))
-				deliver(nil, topic, qos)
-			}
+
 		default:
 			if nadv < 6 {
 				nadv++
